@@ -280,6 +280,16 @@ def one_case(args):
             with open(cpp, "w") as fh:
                 fh.write('#include "%s_bp.h"\nint bpv_use(void) { return 0; }\n' % main)
             tool(["g++", "-c", "-w", "-I", common.REPO_LIBC, "-I", vd, cpp, "-o", cpp + ".o"], "%s g++ header" % variant)
+            # a unit that reaches every generated header more than once (as a diamond of imports does): the
+            # include guards must make the second inclusion empty, in C and in C++
+            incs = ['#include "%s_bp.h"' % main] + ['#include "%s_bp.h"' % f for f in pr["order"]] + \
+                   ['#include "%s_bp.h"' % main]
+            for cc_, ext_ in (("gcc", ".c"), ("g++", ".cpp")):
+                twice = os.path.join(vd, "bpv_twice" + ext_)
+                with open(twice, "w") as fh:
+                    fh.write("\n".join(incs) + "\nint bpv_twice(void) { return 0; }\n")
+                tool([cc_, "-c", "-w", "-I", common.REPO_LIBC, "-I", vd, twice, "-o", twice + ".o"],
+                     "%s %s headers included repeatedly" % (variant, cc_))
             if ok:
                 lc, e1 = layouts(vd, main + "_bp.h", "gcc")
                 lp, e2 = layouts(vd, main + "_bp.h", "g++")
